@@ -75,7 +75,7 @@ def reference(c):
         ends_in_signer = True
     elif mode == "boot":
         ends_in_signer = (unlock_allowed and c["unlock"] and not c["change"] and
-                          c["post"] == "signer")
+                          c["post"] == "signer" and not c.get("unlock_fault"))
     else:
         ends_in_signer = False
     must_serve = onb and ends_in_signer and supported(c["signer"])
@@ -123,7 +123,8 @@ def configs(spec):
                    "echo": True if rng.random() < 0.75 else rng.choice([False] + ECHO_KINDS),
                    "unlock": rng.random() < 0.8,
                    "change": rng.random() < 0.25, "post": rng.choice(POST + ["signer"] * 6),
-                   "newpin": rng.choice(["ok", "ok", "refused", "error", "unknown"])}
+                   "newpin": rng.choice(["ok", "ok", "refused", "error", "unknown"]),
+                   "unlock_fault": rng.choice([None] * 8 + ["timeout", "late", "read_error"])}
         if spec["tier"] == "quick":
             return
     prod = itertools.product(PLATFORMS, MODES, ONB, VERS_SMALL, VERS_SMALL, RETRIES,
@@ -135,9 +136,11 @@ def configs(spec):
                              po != "signer"):
             continue    # those knobs are unobservable unless the bootloader path runs
         for npn in (["ok", "refused", "error"] if ch and mo == "boot" else ["ok"]):
-            yield {"platform": pl, "mode": mo, "onboarded": ob, "ui": ui, "signer": sg,
-                   "retries": rt, "echo": ec, "unlock": ul, "change": ch, "post": po,
-                   "newpin": npn}
+            for uf in ([None, "timeout", "late"] if mo == "boot" and pl == "ledger" and
+                       ec is True and not ch else [None]):
+                yield {"platform": pl, "mode": mo, "onboarded": ob, "ui": ui, "signer": sg,
+                       "retries": rt, "echo": ec, "unlock": ul, "change": ch, "post": po,
+                       "newpin": npn, "unlock_fault": uf}
 
 
 def make_device(c):
@@ -207,6 +210,8 @@ def unlock_apdus(apdus):
 
 def run_config(acc, c, tmpdir, live=False):
     from ..stack import Stack
+    if c.get("unlock_fault") and c["platform"] != "ledger":
+        c["unlock_fault"] = None     # (only the Ledger's UNLOCK exchange is targeted)
     dev = make_device(c)
 
     class _P:    # pin handed to Stack; FileBasedPin built after Platform is set
@@ -222,6 +227,14 @@ def run_config(acc, c, tmpdir, live=False):
         s.protocol.pin = pin
         served = False
         exc = None
+        if c.get("unlock_fault"):
+            # the unlock exchange itself fails: no answer at all, an answer later than the
+            # host's time-out, a read error (the device has compared the PIN in any case)
+            from ..simdev.transport import Fault
+            f = Fault(c["unlock_fault"], processed=True) if c["unlock_fault"] != "late" \
+                else Fault("late")
+            s.bus.arm_cmd({0xFE: f})
+            acc.count("unlock_exchange_faults")
         if live:
             served, exc = run_live(s)
             acc.count("live_runs")
